@@ -12,6 +12,19 @@ use std::path::{Path, PathBuf};
 use std::sync::Mutex;
 
 const FINDING: &str = "C12-respelled-duplicates";
+/// two distinct clean keys, one below the prefix dir and one not, collapse to one reported path
+const PREFIX_FINDING: &str = "C12-prefix-collapses-distinct-keys";
+
+/// `C12.lexName`, restated with std::path: backslashes to '/', `strip_prefix(prefix_dir)` when the
+/// key starts with it, lexical normal form; None = the path escapes through ".."
+fn lex_name(cfg: &Cfg, key: &str) -> Option<String> {
+    let k = key.replace('\\', "/");
+    let stripped = match &cfg.pd {
+        Some(p) => Path::new(&k).strip_prefix(p).map(|r| r.to_str().unwrap().to_string()).unwrap_or(k.clone()),
+        None => k.clone(),
+    };
+    spec_normalize(&stripped)
+}
 
 /// another spelling of the relative path `rel` (of a file below `home`)
 fn respell(rng: &mut Rng, _t: &Tree, rel: &str, home: &str, pd: Option<&str>, stats: &mut BTreeMap<String, u64>) -> String {
@@ -288,8 +301,22 @@ fn oracles(rep: &mut Report, t: &Tree, case: &C12Case, r: &Result<Recs, String>,
         // absolute paths), or the path is the lexical normal form of two or more distinct raw keys
         let respelled = lexical.iter().filter(|k| k.as_deref() == Some(rel.as_str())).count() >= 2;
         let same_abs = &(*same_abs || respelled);
+        // matcher of C12-prefix-collapses-distinct-keys: no source dir, no mapping, a prefix dir;
+        // two raw keys with DIFFERENT lexical normal forms (not respellings of each other) have
+        // this path as their name once the prefix is removed
+        let prefix_collapse = case.cfg.sd.is_none() && case.cfg.mapping.is_none() && case.cfg.pd.is_some() && !respelled && {
+            let mut forms: BTreeSet<Option<String>> = BTreeSet::new();
+            for (k, _) in case.flat() {
+                if lex_name(&case.cfg, &k).as_deref() == Some(rel.as_str()) {
+                    forms.insert(spec_normalize(&k.replace('\\', "/")));
+                }
+            }
+            forms.len() >= 2
+        };
         if g.is_some() {
             fails.push((format!("C12_unique_partial fails: {:?} reported more than once although the guard holds", rel), None));
+        } else if prefix_collapse {
+            fails.push((format!("{:?} is reported more than once (distinct keys that differ by the prefix dir)", rel), Some(PREFIX_FINDING)));
         } else if *same_abs {
             fails.push((format!("{:?} is reported more than once (one file, different raw keys)", rel), Some(FINDING)));
         } else if case.cfg.sd.as_ref().map_or(false, |sd| {
@@ -303,6 +330,28 @@ fn oracles(rep: &mut Report, t: &Tree, case: &C12Case, r: &Result<Recs, String>,
             aliases += 1;
         } else {
             fails.push((format!("{:?} is reported more than once with different absolute paths", rel), None));
+        }
+    }
+    // the sharp criterion (C12_unique_iff_unfiltered): no source dir, no mapping, filters off —
+    // the report has a duplicate path iff two distinct raw keys share a lexical name
+    {
+        let c = &case.cfg;
+        if c.sd.is_none() && c.mapping.is_none() && c.ignore.is_empty() && c.keep.is_empty() && !c.ine && c.filter.is_none() {
+            let mut ks: Vec<String> = case.flat().iter().map(|(k, _)| k.clone()).collect();
+            ks.sort();
+            ks.dedup();
+            let names: Vec<String> = ks.iter().filter_map(|k| lex_name(c, k)).collect();
+            let distinct: BTreeSet<&String> = names.iter().collect();
+            let injective = distinct.len() == names.len();
+            if counting {
+                rep.count(if injective { "sharp.injective" } else { "sharp.not_injective" });
+            }
+            if injective != dups.is_empty() {
+                fails.push((format!("C12_unique_iff_unfiltered fails: lexical names injective = {}, duplicate paths = {:?}", injective, dups), None));
+            }
+            if recs.len() != names.len() {
+                fails.push((format!("{} keys have a lexical name, {} records reported", names.len(), recs.len()), None));
+            }
         }
     }
     if counting && aliases > 0 {
@@ -568,6 +617,40 @@ fn witness(rep: &mut Report) {
     std::env::set_current_dir("/verif").unwrap();
 }
 
+/// Props.C12.C12_prefix_collapse_witness on the real code: --prefix-dir p, keys p/a.c and a.c
+fn witness_prefix(rep: &mut Report) {
+    let base = rep.workdir.join("fs");
+    let t = materialise(&base, 902, &["src".into(), "other".into(), "cw".into()], &[]);
+    std::env::set_current_dir(&t.cw).unwrap();
+    let batch: Vec<(String, CovResult)> = ["p/a.c", "a.c"]
+        .iter()
+        .enumerate()
+        .map(|(i, k)| {
+            let mut c = CovResult::default();
+            c.lines.insert(1, i as u64 + 1);
+            (k.to_string(), c)
+        })
+        .collect();
+    let case = C12Case {
+        cfg: Cfg { sd: None, pd: Some("p".into()), mapping: None, ignore: vec![], keep: vec![], ine: false, filter: None },
+        batches: vec![batch],
+    };
+    let r = run_impl_c12(&case);
+    let req = request("addrewrite", &t, &case.cfg, &case.flat());
+    let model = run_model_named("gm_c12", &[req.clone()], &rep.workdir, "witnessp");
+    rep.case(&req, true);
+    rep.count("witness.prefix_collapse");
+    let want = format!("ok {}", (1..=2).map(|i| format!("A{}:R{}=L1:{};B;F", hex(b"a.c"), hex(b"a.c"), i)).collect::<Vec<_>>().join(" "));
+    if model[0] != want {
+        rep.fail("disagreement", None, "the driver does not reproduce C12_prefix_collapse_witness".into(), case.to_json(&t));
+    }
+    if show_recs(&r) == want {
+        rep.count("witness.prefix_collapse.reproduced_on_real_code");
+    }
+    report_case(rep, &t, &case, &r, &model[0], "witnessp");
+    std::env::set_current_dir("/verif").unwrap();
+}
+
 /// The same property through the command line (main()'s wiring of --source-dir, --prefix-dir and
 /// --path-mapping around add_results and rewrite_paths): every input names files that exist under
 /// the source directory (the `canonical` guard of C12_unique_partial), in several spellings.
@@ -675,6 +758,7 @@ pub fn run(rep: &mut Report) {
     // corrlib's Rng::new is linear in the seed (seed+2 is the same stream two draws later): hash it first
     let mut rng = Rng::new(fnv64(&(rep.seed ^ 0xC12).to_le_bytes()));
     witness(rep);
+    witness_prefix(rep);
     stream(rep, &mut rng);
     std::env::set_current_dir("/verif").unwrap();
     cli_stream(rep, &mut rng);
